@@ -168,13 +168,25 @@ func (r *prec) run(th int, prog string, withNew bool) {
 }
 
 func poolScenario(withNew bool, progs []string, bound int) schk.Scenario {
+	return crowdedPool(withNew, 0, progs, bound, 2)
+}
+
+// crowdedPool: like poolScenario, but `idle` items have been Put before the threads start (an
+// implementation that keeps its own free list behaves differently above some size).
+func crowdedPool(withNew bool, idle int, progs []string, bound, raceBound int) schk.Scenario {
 	name := fmt.Sprintf("Pool/new=%v|%v", withNew, progs)
+	if idle > 0 {
+		name = fmt.Sprintf("Pool/new=%v/%d-idle-items|%v", withNew, idle, progs)
+	}
 	return schk.Scenario{
-		Name: name, Bound: bound, RaceBound: 2,
+		Name: name, Bound: bound, RaceBound: raceBound, MaxSteps: 20000 + 200*idle,
 		Body: func(s *vrt.Sched) any {
 			r := &prec{p: new(sync2.Pool[*tok]), log: make([]string, len(progs))}
 			if withNew {
 				r.p.New = r.mint
+			}
+			for i := 0; i < idle; i++ {
+				r.p.Put(&tok{id: 100000 + i})
 			}
 			for t := range progs {
 				t := t
@@ -229,6 +241,11 @@ func main() {
 		}
 		for _, tri := range [][]string{{"GYP", "GYP", "GYP"}, {"NG", "GP", "GP"}, {"GGPP", "GP", "NGP"}, {"GPGP", "GYP", "G"}} {
 			scs = append(scs, poolScenario(withNew, tri, ev.Pick(r, 3, -1)))
+		}
+	}
+	for _, idle := range []int{15, 16, 63, 64, 255, 256, 1023, 1024, 4095, 4096} {
+		for _, pp := range [][]string{{"N", "N"}, {"NG", "N"}, {"GP", "NN"}} {
+			scs = append(scs, crowdedPool(true, idle, pp, ev.Pick(r, 1, 2), 1))
 		}
 	}
 	schk.WorkerExtra = func() map[string]int64 {
